@@ -56,7 +56,7 @@ var ownDiscipline = map[string]string{
 	"Conn.reqQueued": "mutex:Conn.reqLck",
 	"Conn.lastErr":   "mutex:Conn.lastErrLck",
 	"Conn.nextID":    "atomic", "Conn.openStreams": "atomic", "Conn.maxStreams": "atomic", "Conn.maxFrameSize": "atomic",
-	"Conn.encTableSize": "atomic", "Conn.goAway": "atomic", "Conn.unacks": "atomic", "Conn.closed": "atomic", "Conn.writeBounded": "atomic",
+	"Conn.encTableSize": "atomic", "Conn.goAway": "atomic", "Conn.unacks": "atomic", "Conn.closed": "atomic", "Conn.writeBounded": "atomic", "Conn.encTableSizeLow": "atomic",
 	"Conn.sendLck": "sync", "Conn.reqLck": "sync", "Conn.bwLck": "sync", "Conn.lastErrLck": "sync",
 	"Conn.onDisconnect": "exempt:configuration callback set through SetOnDisconnect before the connection is used; not part of the interleavings the property quantifies over",
 	// pendingBody
@@ -64,7 +64,10 @@ var ownDiscipline = map[string]string{
 	"pendingBody.window": "mutex:Conn.sendLck",
 	"pendingBody.body":   "owner:go:(*Conn).writeLoop", "pendingBody.drained": "owner:go:(*Conn).writeLoop", "pendingBody.read": "owner:go:(*Conn).writeLoop",
 	"pendingBody.buf": "owner:go:(*Conn).writeLoop", "pendingBody.size": "owner:go:(*Conn).writeLoop",
-	"pendingBody.stream": "mutex:Ctx.lck",
+	// set while the body is built in writeRequest and never changed: the write
+	// loop calls Read on it holding nothing, so nothing may clear it; that it
+	// has been closed is kept in closed
+	"pendingBody.stream": "init-only", "pendingBody.closed": "atomic",
 	// Ctx
 	"Ctx.Err": "init-only", "Ctx.streamID": "atomic", "Ctx.conn": "atomic",
 	"Ctx.done":     "mutex:Ctx.lck",
